@@ -262,7 +262,7 @@ theorem c04_correlate_wf (a b o : Obs α) (ha : Spec.wfC04 a = true) (h : correl
     Spec.wfC04 o = true := by
   obtain ⟨o', ho', rfl⟩ := C04.correlate_ok a b o h
   rw [C04.wf_reweighted]
-  exact c04_mk_wf_corrected _ _ _ o' (fun il e => by cases e; exact C04.range_step_of_wf a ha) ho'
+  exact c04_mk_wf_corrected _ _ _ o' (fun il e => by cases e; exact C04.range_step_of_wf a (c04_wf_implies a ha)) ho'
 
 /-- C04 (closure): whatever `merge_obs(l)` returns satisfies the invariant, if every member of `l` does -/
 theorem c04_merge_wf (l : List (Obs α)) (o : Obs α) (hl : ∀ x ∈ l, Spec.wfC04 x = true) (h : mergeObs l = .ok o) :
@@ -275,7 +275,7 @@ theorem c04_merge_wf (l : List (Obs α)) (o : Obs α) (hl : ∀ x ∈ l, Spec.wf
   obtain ⟨r, hr, hri⟩ := List.mem_map.1 hm
   have hr' := (C04.perm_sortBy _ _).subset hr
   obtain ⟨x, hx, hrx⟩ := List.mem_flatMap.1 hr'
-  exact C04.range_step_of_wf x (hl x hx) s n st (List.mem_map.2 ⟨r, hrx, hri⟩)
+  exact C04.range_step_of_wf x (c04_wf_implies x (hl x hx)) s n st (List.mem_map.2 ⟨r, hrx, hri⟩)
 
 
 /-- C04 (closure): whatever `reweight(w, [o])` returns satisfies the invariant, if `w` and `o` do
@@ -286,7 +286,7 @@ theorem c04_reweight_wf (w o res : Obs ℝ) (ac : Bool)
   obtain ⟨s, ws, tmp, norm, r, hs, htmp, hnorm, hr, rfl⟩ := C04.reweight1_ok w o res ac h
   rw [C04.wf_reweighted]
   have hstep : ∀ il, some (o.reps.map (·.idl)) = some il → ∀ s n st, Idl.range s n st ∈ il → st ≠ 0 := by
-    intro il e; cases e; exact C04.range_step_of_wf o ho
+    intro il e; cases e; exact C04.range_step_of_wf o (c04_wf_implies o ho)
   have htw := c04_mk_wf_corrected _ _ _ tmp hstep htmp
   obtain ⟨htl, htc⟩ := c04_mk_len _ _ _ tmp htmp
   have hnw : Spec.wfC04 norm = true ∧ (∀ q ∈ norm.reps, 2 ≤ q.idl.len) := by
